@@ -2,6 +2,7 @@
 import math
 from fractions import Fraction
 
+from harness import stubtex
 from harness.checks import c13
 
 ID = "C14"
@@ -184,6 +185,18 @@ def spec_check(case):
     _, _, again = compute_canon(case)
     if again != canon:
         return "computing the layout twice gives different results", canon
+    # ... and on the SAME reconciliation object (compute_canon builds a fresh, equal one for every call, so state
+    # left on the object by the first call — a reordered tree, a cached size — never shows there)
+    from superrec2.render import layout as rlayout
+
+    stubtex.install(c13.measurer(case, swap=False, record=[]))
+    dp = c13.draw_params(case["orient"], case["params"], decode_extra(case))
+    try:
+        same_obj = c13.canon_layout(out, rlayout.compute(out, dp))
+    except Exception as e:
+        return f"second layout of the same reconciliation object raises {type(e).__name__}: {e}", canon
+    if same_obj != canon:
+        return "computing the layout twice ON THE SAME reconciliation object gives different results", canon
     # mirror: the other orientation with width and height of every node exchanged
     other = "H" if case["orient"] == "V" else "V"
     _, _, mirrored = compute_canon(case, orient=other, swap=True)
